@@ -590,6 +590,28 @@ impl<A: Gen> Gen for Padded<A> {
         Padded { inner: A::gen(r, size), pad }
     }
 }
+/// Make the stream length of a `Padded` value ≡ delta (mod modulus), at least modulus + delta.
+pub fn fit_padded<A>(v: &mut Padded<A>, modulus: usize, delta: isize) -> bool
+where
+    Padded<A>: Serialize,
+{
+    v.pad.clear();
+    let mut b = Vec::new();
+    if v.serialize(&mut b).is_err() {
+        return false;
+    }
+    let base = b.len();
+    let want = (modulus as isize + delta) as usize % modulus;
+    let mut n = (want + modulus - base % modulus) % modulus;
+    if base + n < modulus {
+        n += modulus;
+    }
+    if base + n < (modulus as isize + delta).max(0) as usize {
+        n += modulus;
+    }
+    v.pad = "p".repeat(n);
+    true
+}
 impl<A: Canon> Canon for Padded<A> {
     fn canon(&self, out: &mut Vec<u8>) {
         self.inner.canon(out);
@@ -787,10 +809,15 @@ pub trait Doc: Serialize + Deserialize + Canon + Gen + Send + Sync + 'static {
     fn drop_probe(&self) -> Option<(u64, u64)> {
         None
     }
+    /// For documents with a free-length tail (`Padded<..>`): adjust the value so that its stream length
+    /// is ≡ `delta` (mod `modulus`) and at least `modulus + delta`. Default: not adjustable.
+    fn fit_len(&mut self, _modulus: usize, _delta: isize) -> bool {
+        false
+    }
 }
 
 macro_rules! doc_impl {
-    ($name:ident, $t:ty $(, variants = $vf:expr)? $(, escape = $ef:expr)? $(, probe = $pf:expr, epsprobe = $epf:expr)?) => {
+    ($name:ident, $t:ty $(, variants = $vf:expr)? $(, escape = $ef:expr)? $(, probe = $pf:expr, epsprobe = $epf:expr)? $(, fit = $ff:expr)?) => {
         impl CaseObj for EpsObj<$t> {
             fn canon(&self, out: &mut Vec<u8>) {
                 let d: &DeserType<'static, $t> = &self.0;
@@ -847,6 +874,10 @@ macro_rules! doc_impl {
             $(fn drop_probe(&self) -> Option<(u64, u64)> {
                 let f: fn(&Self) -> Option<(u64, u64)> = $pf;
                 f(self)
+            })?
+            $(fn fit_len(&mut self, modulus: usize, delta: isize) -> bool {
+                let f: fn(&mut Self, usize, isize) -> bool = $ff;
+                f(self, modulus, delta)
             })?
         }
     };
@@ -943,9 +974,9 @@ registry! {
     PersonD: Person;
     ConstGen3: ConstGen<3>;
     PhantomD: Phantom<u32>;
-    PaddedVecU64: Padded<Vec<u64>>;
-    PaddedZ32: Padded<Vec<Z32>>;
-    PaddedStr: Padded<String>;
+    PaddedVecU64: Padded<Vec<u64>> { fit = |v, m, d| fit_padded(v, m, d) };
+    PaddedZ32: Padded<Vec<Z32>> { fit = |v, m, d| fit_padded(v, m, d) };
+    PaddedStr: Padded<String> { fit = |v, m, d| fit_padded(v, m, d) };
     DropProbeD: DropProbe<Vec<u64>> { probe = |v| Some((v.mark, probe_sum(&v.data))), epsprobe = |v| Some((v.mark, probe_sum(v.data))) };
 }
 
